@@ -314,7 +314,8 @@ Record state := mkSt { st_srcs : list feed; st_sink : feed; st_tok : list token 
     run later.  So a run of this model does not look at [r_handlers] at all. *)
 Inductive handler := HLog | HReRun | HReQueue.
 Record rcfg := mkR { r_full : bool; r_union : bool; r_b : nat; r_los : list bool; r_flt : fault;
-                     r_handlers : list handler }.
+                     r_handlers : list handler;
+                     r_sinkhttp : bool  (* the sink is an HttpDatasetSink posting to a hub's dataset endpoint *) }.
 
 Definition total_len (srcs : list feed) : nat := fold_right (fun f n => length f + n) 0 srcs.
 Definition fuel_of (srcs : list feed) : nat := total_len srcs + 2 * length srcs + 2.
@@ -365,6 +366,74 @@ Definition run_job (v : variant) (st : state) (r : rcfg) : state * outcome :=
            else st_tok st), OFailed)
   else run_body v st r.
 
+(** ** Fullsync in "entities mode"
+    A fullsync to an HttpDatasetSink puts the source into fullsync mode (source.StartFullSync,
+    unless it is a single LatestOnly DatasetSource): the source is then paged through
+    Dataset.MapEntities - the latest version of every entity, one page of [batch] entities at a
+    time - instead of through the change log; the receiving hub gets full-sync-start with the
+    first request and full-sync-end after the last (StartFullSyncWithLease / CompleteFullSync),
+    and the job's continuation token is NOT stored.  Modelled for runs that reach the end only:
+    no fault, or a receiver that refuses one entity while a [log] handler is configured (the
+    wrapped sink splits the refused batch, logs that entity and goes on; the run is recorded
+    with the error).  Only the set of delivered versions matters (each entity occurs once). *)
+Fixpoint latest (f : feed) : list version :=
+  match f with
+  | [] => []
+  | v :: f' => if zmem (v_id v) (ids f') then latest f' else v :: latest f'
+  end.
+
+(** Dataset.MapEntities order = internal id order = order in which the entity URIs were first
+    stored; an entity of a source member is first stored by a write to that member (the job copies
+    it to the sink afterwards, other writers of the sink use other ids), so within one member
+    this is the order of first appearance in its feed. *)
+Fixpoint firsts (seen : list Z) (f : feed) : list Z :=
+  match f with
+  | [] => []
+  | v :: f' => if zmem (v_id v) seen then firsts seen f' else v_id v :: firsts (v_id v :: seen) f'
+  end.
+Definition ents (f : feed) : list version :=
+  flat_map (fun i => match cur f i with Some w => [w] | None => [] end) (firsts [] f).
+(** the first request of the run: the first page of the first member that has entities *)
+Definition first_page (b : nat) (srcs : list feed) : list version :=
+  firstn b (hd [] (filter nonempty (map ents srcs))).
+
+Definition entities_mode (r : rcfg) : bool :=
+  r_full r && r_sinkhttp r && negb (negb (r_union r) && nth 0 (r_los r) false).
+
+Definition is_log (h : handler) : bool := match h with HLog => true | _ => false end.
+Definition rejected (r : rcfg) : option Z :=
+  match r_flt r with
+  | FSinkReject x => if existsb is_log (r_handlers r) then Some x else None
+  | _ => None
+  end.
+
+Definition run_entities (v : variant) (st : state) (r : rcfg) : state * outcome :=
+  let eqf := weq (vm_eq v) in
+  let dm := vm_dup v in
+  let all := flat_map latest (st_srcs st) in
+  let deliv := match rejected r with
+               | Some x => filter (fun w => negb (Z.eqb (v_id w) x)) all
+               | None => all
+               end in
+  let s1 := ds_write eqf dm (st_sink st) deliv in
+  (* if the receiver refuses the FIRST request it never sees full-sync-start (the sink has already
+     cleared isFirstBatch): everything else is stored as plain batches and full-sync-end is
+     answered 410 "no active fullsync lease" - the run fails at the end and nothing is deleted *)
+  let refused_first := match rejected r with
+                       | Some x => zmem x (ids (first_page (r_b r) (st_srcs st)))
+                       | None => false
+                       end in
+  let s2 := if refused_first then s1 else complete eqf dm s1 (ids deliv) in
+  (mkSt (st_srcs st) s2
+        (match vm_fs v with FsKeep => st_tok st | FsReset => none_tokens (st_srcs st) end),
+   match rejected r with
+   | Some x => if zmem x (ids all) then OFailed else OOk
+   | None => OOk
+   end).
+
+Definition run_any (v : variant) (st : state) (r : rcfg) : state * outcome :=
+  if entities_mode r then run_entities v st r else run_job v st r.
+
 (** ** Histories: source writes, foreign writes to the sink dataset, job runs *)
 Inductive op :=
 | OWrite (k : nat) (es : list version)      (* a batch stored into source dataset k *)
@@ -382,7 +451,7 @@ Definition step (v : variant) (st : state) (o : op) : state * option outcome :=
     (mkSt (st_srcs st) (ds_write (weq (vm_eq v)) (vm_dup v) (st_sink st) es) (st_tok st), None)
   | ODropSink => (mkSt (st_srcs st) [] (st_tok st), None)
   | OCreateSink => (st, None)
-  | ORun r => let '(st', o) := run_job v st r in (st', Some o)
+  | ORun r => let '(st', o) := run_any v st r in (st', Some o)
   end.
 
 (** all states along a history, one per operation, with the run outcomes *)
@@ -438,5 +507,6 @@ Definition wf_op (owner : Z -> nat) (n : nat) (o : op) : Prop :=
   | OSinkWrite es => forall v, In v es -> n <= owner (v_id v)
   | ODropSink => False       (* deleting the sink under a job is outside the guarantee: see nosink lemmas *)
   | OCreateSink => True
-  | ORun r => 1 <= r_b r /\ 1 <= n /\ (r_union r = false -> n = 1) /\ ~ In HLog (r_handlers r)   (* a DatasetSource job has one source dataset *)
+  | ORun r => 1 <= r_b r /\ 1 <= n /\ (r_union r = false -> n = 1) /\ ~ In HLog (r_handlers r)
+              /\ entities_mode r = false   (* entities-mode fullsyncs: see run_entities lemmas *)   (* a DatasetSource job has one source dataset *)
   end.
